@@ -805,6 +805,15 @@ class SliceIndexer(ShapedSliceIndexer):
         if slc.stop is None and slc.step < 0:  # special backwards indexing case
             self._shaped_inst = \
                 ShapedSliceIndexer(slc)
+        elif slc.step < 0:
+            # backwards indexing with a stop: resolve an open or negative start, and keep a
+            # stop that runs past index 0 open, because a negative stop means 'from the end'.
+            start, stop, step = slc.indices(self._src_shape[0])
+            if start < 0:  # nothing selected
+                start = stop = 0
+            elif stop < 0:
+                stop = None
+            self._shaped_inst = ShapedSliceIndexer(slice(start, stop, step))
         elif (slc.start is not None and slc.start < 0) or slc.stop is None or slc.stop < 0:
             self._shaped_inst = \
                 ShapedSliceIndexer(slice(*self._slice.indices(self._src_shape[0])))
